@@ -52,6 +52,8 @@ THEOREMS = [
     "Nix.C20.idInv_after_copy",
     "Nix.C20.independent_history",
     "Nix.C20.independent_history_observed",
+    "Nix.C20.reachable_file_ok",
+    "Nix.C20.reachable_entity_has_id",
     "Nix.C20.independent_delete_old_side",
     "Nix.C20.independent_delete_new_side",
     "Nix.C20.independent_delete_partial",
